@@ -38,56 +38,89 @@ def responses(out_line):
     return f[2:] if len(f) >= 3 else []
 
 
-def single_request_verdict(hbin, driver, c, req):
-    """(impl response, monitor char, model response) of one request run alone."""
-    line = join_case(c, [req])
+def group_bounds(reqs, k):
+    """The write group (W followed by its continuation chunks C) request k belongs to: [start, end)."""
+    i = k
+    while i > 0 and reqs[i].startswith("C,") and reqs[i - 1][0] in "WC":
+        i -= 1
+    j = k + 1
+    while j < len(reqs) and reqs[j].startswith("C,") and reqs[i][0] in "WC":
+        j += 1
+    return i, j
+
+
+def group_verdict(hbin, driver, c, group):
+    """(impl tokens, monitor chars, model tokens) of one request group run alone on a fresh device."""
+    line = join_case(c, group)
     i = run_one([hbin, "run"], line)
     ir = responses(i)
-    if len(ir) != 1:
+    if len(ir) != len(group):
         return None
     v = run_one([driver, "spec"], line + "\t" + i, stdin=True)
     m = run_one([driver], line, stdin=True)
     vr = v.split(" ")
-    return ir[0], (vr[2] if len(vr) >= 3 else "."), (responses(m) or [""])[0]
+    return ir, (vr[2] if len(vr) >= 3 else "." * len(group)), responses(m)
 
 
-def shrink(hbin, driver, c, req):
-    """Greedy reduction of one violating request: fewer items, no node switches, fewer ACL entries,
-    fewer endpoints / clusters - as long as the monitor still says 0 on the implementation's response."""
+def calls_of_token(t):
+    return [x for x in t[t.index("L[") + 2:-1].split(",") if x] if "L[" in t else []
+
+
+def extra_calls(impl_tokens, model_tokens):
+    """The implementation's handler received a call the model does not make for that message."""
+    for k, t in enumerate(impl_tokens):
+        m = calls_of_token(model_tokens[k]) if k < len(model_tokens) else []
+        if any(x not in m for x in calls_of_token(t)):
+            return True
+    return False
+
+
+def shrink(hbin, driver, c, group):
+    """Greedy reduction of one violating request group: fewer items per message, no switches, fewer ACL
+    entries, fewer endpoints / clusters - as long as the monitor still says 0 on the implementation's response."""
     budget = [60]
+    first = group_verdict(hbin, driver, c, group)
+    # a violation in which the handler acted where it must not stays one of that kind while it is reduced
+    need_call = first is not None and extra_calls(first[0], first[2])
 
-    def bad(cc, rq):
+    def bad(cc, grp):
         if budget[0] <= 0:
             return False
         budget[0] -= 1
-        r = single_request_verdict(hbin, driver, cc, rq)
-        return r is not None and r[1] == "0"
+        r = group_verdict(hbin, driver, cc, grp)
+        return r is not None and "0" in r[1] and (not need_call or extra_calls(r[0], r[2]))
 
     c = dict(c)
-    f = req.split(",")
-    items = f[6].split("&")
+    group = list(group)
     changed = True
     while changed and budget[0] > 0:
         changed = False
-        for k in range(len(items)):
-            if len(items) <= 1:
+        for gi, rq in enumerate(group):
+            f = rq.split(",")
+            items = f[6].split("&")
+            for k in range(len(items)):
+                if len(items) <= 1:
+                    break
+                cand = items[:k] + items[k + 1:]
+                ng = list(group)
+                ng[gi] = ",".join(f[:6] + ["&".join(cand)])
+                if bad(c, ng):
+                    group, changed = ng, True
+                    break
+            if changed:
                 break
-            cand = items[:k] + items[k + 1:]
-            rq = ",".join(f[:6] + ["&".join(cand)])
-            if bad(c, rq):
-                items, changed = cand, True
-                break
+            if f[5] != "-":
+                ng = list(group)
+                ng[gi] = ",".join(f[:5] + ["-", f[6]])
+                if bad(c, ng):
+                    group, changed = ng, True
+                    break
         if changed:
             continue
-        if f[5] != "-":
-            rq = ",".join(f[:5] + ["-", "&".join(items)])
-            cc = dict(c)
-            if bad(cc, rq):
-                f[5], changed = "-", True
-                continue
+        no_switch = all(rq.split(",")[5] == "-" for rq in group)
         # drop ACL entries (in every alternative table)
         tables = c["fabs"].split("!")
-        if f[5] == "-" and len(tables) > 1:
+        if no_switch and len(tables) > 1:
             tables = tables[:1]
             c = dict(c)
             c["fabs"] = tables[0]
@@ -102,7 +135,7 @@ def shrink(hbin, driver, c, req):
                     nf[fi] = "%s:%s:%s" % (idx, "+".join(cand) or "-", gs)
                     cc = dict(c)
                     cc["fabs"] = "!".join(tables[:ti] + ["|".join(nf)] + tables[ti + 1:])
-                    if bad(cc, ",".join(f[:6] + ["&".join(items)])):
+                    if bad(cc, group):
                         c, changed = cc, True
                         break
                 if changed:
@@ -112,14 +145,14 @@ def shrink(hbin, driver, c, req):
         if changed:
             continue
         # drop endpoints / clusters of the (only) node when no switch is left
-        if f[5] == "-":
+        if no_switch:
             nodes = c["nodes"].split("#")
             eps = [] if nodes[0] == "-" else nodes[0].split("|")
             for k in range(len(eps)):
                 cand = eps[:k] + eps[k + 1:]
                 cc = dict(c)
                 cc["nodes"] = "|".join(cand) or "-"
-                if bad(cc, ",".join(f[:6] + ["&".join(items)])):
+                if bad(cc, group):
                     c, changed = cc, True
                     break
             if changed:
@@ -133,12 +166,12 @@ def shrink(hbin, driver, c, req):
                     ne[k] = "%s~%s~%s" % (eid, dts, "+".join(cand) or "-")
                     cc = dict(c)
                     cc["nodes"] = "|".join(ne)
-                    if bad(cc, ",".join(f[:6] + ["&".join(items)])):
+                    if bad(cc, group):
                         c, changed = cc, True
                         break
                 if changed:
                     break
-    return c, ",".join(f[:6] + ["&".join(items)])
+    return c, group
 
 
 EXPLAIN = """fields of the case line:
@@ -149,9 +182,10 @@ EXPLAIN = """fields of the case line:
   nodes     joined by '#'; node = endpoints joined by '|'; endpoint = id~device types~clusters;
             cluster = id=attributes=commands; element = id.access bits.enabled
             (access bits: 1 V,2 O,4 M,8 A levels; 16 readable; 32 writable; 64 fabric-scoped; 128 fabric-sensitive; 256 timed-only)
-  request   op(R/W/I),TimedRequest flag of the action,fabricFiltered,timeout of a preceding TimedRequest (n: none),
+  request   op(R/W/I; C = continuation chunk of the preceding write, sent on the same exchange after the previous chunk
+            was sent with MoreChunkedMessages and answered; its 5th field = ms waited before it),TimedRequest flag of the action,fabricFiltered,timeout of a preceding TimedRequest (n: none),
             ms waited after it,switches (k>j/a: after k handler calls node j and ACL table a are in force),items (endpoint.cluster.element[^command ref], x = wildcard)
-response: X<status> (bare StatusResponse) | I[entries]L[handler calls]; D = served by the handler, S<path>:<status> = refused"""
+response: X<status> (bare StatusResponse) | N (chunk not sent, an earlier one was refused) | I[entries]L[handler calls]; D = served by the handler, S<path>:<status> = refused"""
 
 
 def main(tier, replay=None):
@@ -214,6 +248,8 @@ def main(tier, replay=None):
     n_req = n_mon = n_unparsed = mon_viol = 0
     harness_errors = []
     reported = 0
+    reruns_ok = 0
+    seen_groups = set()
     served = refused = bare = calls = 0
     kinds = {}
     status_hist = {}
@@ -226,10 +262,14 @@ def main(tier, replay=None):
             r = ir[k] if k < len(ir) else ""
             v = sv[k] if k < len(sv) else "."
             kinds[rq[0]] = kinds.get(rq[0], 0) + 1
-            if r.startswith("E") or r == "":
+            if r == "N":
+                pass
+            elif r.startswith("E") or r == "":
                 harness_errors.append((key, k, r))
                 continue
-            if r.startswith("X"):
+            if r == "N":
+                pass
+            elif r.startswith("X"):
                 bare += 1
                 k2 = "bare_" + r[1:].split("L")[0]
                 status_hist[k2] = status_hist.get(k2, 0) + 1
@@ -244,32 +284,49 @@ def main(tier, replay=None):
                         status_hist[k2] = status_hist.get(k2, 0) + 1
                 lg = r[r.index("L[") + 2:-1] if "L[" in r else ""
                 calls += len([x for x in lg.split(",") if x])
+            if r == "N":
+                n_mon += 1 if v == "1" else 0
+                if v != "0":
+                    continue
             if v == ".":
                 n_unparsed += 1
                 continue
-            n_mon += 1
+            if r != "N":
+                n_mon += 1
             if v == "1":
+                continue
+            gi, gj = group_bounds(cs["reqs"], k)
+            if (key, gi) in seen_groups:
+                continue
+            seen_groups.add((key, gi))
+            group = cs["reqs"][gi:gj]
+            # the timed window runs on the real clock: a violating group is run once more, alone, before it counts
+            again = group_verdict(hbin, driver, cs, group)
+            if again is not None and "0" not in again[1] and "." not in again[1]:
+                reruns_ok += 1
                 continue
             mon_viol += 1
             if reported >= 3:
                 continue
             reported += 1
-            small_c, small_rq = shrink(hbin, driver, cs, rq)
-            one = single_request_verdict(hbin, driver, small_c, small_rq)
-            if one is None or one[1] != "0":
-                small_c, small_rq = cs, rq
-                one = single_request_verdict(hbin, driver, cs, rq) or (r, v, "")
-            line = join_case(small_c, [small_rq])
+            small_c, small_g = shrink(hbin, driver, cs, group)
+            one = group_verdict(hbin, driver, small_c, small_g)
+            if one is None or "0" not in one[1]:
+                small_c, small_g = cs, group
+                one = group_verdict(hbin, driver, cs, group) or (ir[gi:gj], sv[gi:gj], [])
+            line = join_case(small_c, small_g)
             c.violation("mediation", "\n".join([
                 "property C06 fails on the implementation: the response / handler log of an Interaction Model request is not "
-                "the one the property allows (Model/ImSpec.v holds = false): an element was served or acted upon that is not "
-                "permitted for the requester, a refused path reached the handler, a permitted element is missing, or a status is wrong.",
+                "the one the property allows (Model/ImSpec.v holds / holds_chunked = false): an element was served or acted upon "
+                "that is not permitted for the requester (for a timed-only element: outside an unexpired timed interaction, "
+                "judged for every chunk of a write), a refused path reached the handler, a permitted element is missing, "
+                "or a status is wrong.",
                 "case: " + line,
-                "implementation : " + one[0],
-                "model (Im.v)   : " + one[2],
+                "implementation : " + " ".join(one[0]),
+                "model (Im.v)   : " + " ".join(one[2]),
                 "original case  : " + cl[:600],
-                "original request #%d: %s" % (k, rq),
-                "original impl  : " + r[:600],
+                "original requests #%d..%d: %s" % (gi, gj - 1, ";".join(group)),
+                "original impl  : " + " ".join(ir[gi:gj])[:600],
                 EXPLAIN,
                 "replay: bin/check C06 quick --replay <this file>"]))
 
@@ -302,7 +359,9 @@ def main(tier, replay=None):
                 a = ir[k] if k < len(ir) else ""
                 b = mr[k] if k < len(mr) else ""
                 if a != b:
-                    lines += ["case : " + join_case(cs, [rq], cs["id"])[:1500], "impl : " + a[:700], "model: " + b[:700], ""]
+                    gi, gj = group_bounds(cs["reqs"], k)
+                    lines += ["case : " + join_case(cs, cs["reqs"][gi:gj], cs["id"])[:1500],
+                              "impl : " + " ".join(ir[gi:gj])[:700], "model: " + " ".join(mr[gi:gj])[:700], ""]
                     break
         c.violation("corr", "\n".join(lines), no_input=True)
 
@@ -343,6 +402,7 @@ def main(tier, replay=None):
         "monitor_checks": n_mon,
         "monitor_unparsed": n_unparsed,
         "monitor_violations": mon_viol,
+        "monitor_violations_not_reproduced_on_rerun": reruns_ok,
         "disagreements_checked": len(diffs),
         "exhaustive": False,
     })
